@@ -182,9 +182,22 @@ class Draws:
         raise AssertionError(kind)
 
 
+def exp_mixed(a):
+    """np.exp on arrays that mix symbolic reals with plain floats (e.g. exp(-inf) = 0 for a zero-likelihood proposal)."""
+    if isinstance(a, np.ndarray) and a.dtype == object:
+        out = np.empty(a.shape, dtype=object)
+        for idx in np.ndindex(a.shape):
+            v = a[idx]
+            out[idx] = v.exp() if hasattr(v, "exp") else float(np.exp(v))
+        return out.view(SymArray) if a.ndim else out.item()
+    if hasattr(a, "exp"):
+        return a.exp()
+    return np.exp(a)
+
+
 def mcmc_proxy(stub: RandomStub):
     return NpProxy(random=stub, object_constructors=True,
-                   overrides={"nan_to_num": lambda a, nan=0.0, **k: a,
+                   overrides={"nan_to_num": lambda a, nan=0.0, **k: a, "exp": exp_mixed,
                               "isinf": isinf_model, "isfinite": isfinite_model})
 
 
